@@ -298,3 +298,58 @@ def container_of(M):
             if c.__type__ is M:
                 return K, a
     return None
+
+
+_CHAINS = {}
+
+
+def chains_from_root():
+    """for every model class reachable from OFX: the shortest chain [(parent class, attribute, is list member, child class), ...]
+    leading from the document root to it (breadth-first over declared sub-aggregates and list members)"""
+    if _CHAINS:
+        return _CHAINS
+    root = getattr(ofxtools.models, "OFX")
+    _CHAINS[root] = []
+    queue = [root]
+    while queue:
+        P = queue.pop(0)
+        for a, c in P.spec.items():
+            if isinstance(c, Types.ListAggregate):
+                child, lst = c.__type__, True
+            elif isinstance(c, Types.SubAggregate):
+                child, lst = c.__type__, False
+            else:
+                continue
+            if isinstance(child, type) and child not in _CHAINS:
+                _CHAINS[child] = _CHAINS[P] + [(P, a, lst, child)]
+                queue.append(child)
+    return _CHAINS
+
+
+def document_holding(inst):
+    """a whole document (OFX instance) holding `inst` at the end of its class's chain from the root, or None"""
+    chain = chains_from_root().get(type(inst))
+    if chain is None:
+        return None
+    cur = inst
+    for P, a, lst, child in reversed(chain):
+        if lst:
+            a0, k0 = base_instance(P)
+            cands = [([cur], k0), (list(a0) + [cur], k0)]
+        else:
+            found = kwargs_with(P, a)
+            if found is None:
+                return None
+            a0, k0 = found
+            cands = [(a0, dict(k0, **{a: cur}))]
+        nxt = None
+        for args, kw in cands:
+            try:
+                nxt = build(P, args, kw)
+                break
+            except Exception:
+                nxt = None
+        if nxt is None:
+            return None
+        cur = nxt
+    return cur
